@@ -196,6 +196,8 @@ fn process_dir(
             Err(err) => {
                 ret = 1;
                 writeln!(&mut stderr(), "Error: {err}").unwrap();
+                #[cfg(findutils_verif)]
+                verif::emit("{\"ev\":\"Err\"}".to_string());
             }
             Ok(entry) => {
                 // walkdir does not always honour -mindepth: it lowers min_depth to
@@ -204,6 +206,8 @@ fn process_dir(
                 if entry.depth() < config.min_depth {
                     continue;
                 }
+                #[cfg(findutils_verif)]
+                verif::emit_eval(&entry);
                 let mut matcher_io = matchers::MatcherIO::new(deps);
 
                 let new_dir = entry.path().parent().map(|x| x.to_path_buf());
@@ -235,11 +239,15 @@ fn process_dir(
                 let descended = true;
                 if matcher_io.should_skip_current_dir() && !config.depth_first && descended {
                     it.skip_current_dir();
+                    #[cfg(findutils_verif)]
+                    verif::emit("{\"ev\":\"Skip\"}".to_string());
                 }
             }
         }
     }
 
+    #[cfg(findutils_verif)]
+    verif::emit("{\"ev\":\"Done\"}".to_string());
     let mut matcher_io = matchers::MatcherIO::new(deps);
     if let Some(dir) = current_dir.take() {
         matcher.finished_dir(dir.as_path(), &mut matcher_io);
@@ -252,6 +260,59 @@ fn process_dir(
     }
 
     ret
+}
+
+/// Verification hook (only compiled with `--cfg findutils_verif`): an event log of
+/// the walk loop - every entry handed to the expression, every walk error, every
+/// skip_current_dir() - collected in memory between `start()` and `take()`.
+#[cfg(findutils_verif)]
+pub mod verif {
+    use super::WalkEntry;
+    use std::sync::Mutex;
+
+    static EVENTS: Mutex<Option<Vec<String>>> = Mutex::new(None);
+
+    /// Start collecting events (discarding what was collected before).
+    pub fn start() {
+        *EVENTS.lock().unwrap() = Some(Vec::new());
+    }
+
+    /// Stop collecting and return the events, one JSON object each.
+    pub fn take() -> Vec<String> {
+        EVENTS.lock().unwrap().take().unwrap_or_default()
+    }
+
+    pub(super) fn emit(event: String) {
+        if let Some(events) = EVENTS.lock().unwrap().as_mut() {
+            events.push(event);
+        }
+    }
+
+    pub(super) fn emit_eval(entry: &WalkEntry) {
+        #[cfg(unix)]
+        let path: String = {
+            use std::os::unix::ffi::OsStrExt;
+            entry
+                .path()
+                .as_os_str()
+                .as_bytes()
+                .iter()
+                .map(|b| format!("{b:02x}"))
+                .collect()
+        };
+        #[cfg(not(unix))]
+        let path: String = entry
+            .path()
+            .to_string_lossy()
+            .bytes()
+            .map(|b| format!("{b:02x}"))
+            .collect();
+        emit(format!(
+            "{{\"ev\":\"Eval\",\"path\":\"{path}\",\"depth\":{},\"dir\":{}}}",
+            entry.depth(),
+            entry.file_type().is_dir()
+        ));
+    }
 }
 
 fn do_find(args: &[&str], deps: &dyn Dependencies) -> Result<i32, Box<dyn Error>> {
